@@ -18,6 +18,7 @@
 #include "K_rda_m_offset.c"
 #include "K_rda_ax_offset.c"
 #include "K_rda_rpr.c"
+#include "K_rda_fill_rd2seg.c"
 #include "K_get_num_axial_poss_per_ring_inc.c"
 #include "K_get_segment_num_for_ring_difference.c"
 #include "K_get_segment_axial_pos_num_for_ring_pair.c"
@@ -237,6 +238,34 @@ void h_lemma_rpr(void)
   const int rpr = K_rda_rpr(ax, inc, m, ring_spacing, num_rings);
   __CPROVER_assert(off == num_rings - 1 - (max_ax + min_ax) / inc, "ax_pos_num_offset is the exact integer num_rings - 1 - (max_ax + min_ax) / inc");
   __CPROVER_assert(rpr == 2 * ax / inc + off, "ring1_plus_ring2 of an axial position is 2*ax/inc + ax_pos_num_offset (reader contract SPEC_RPR)");
+#ifdef LEMMA_CANARY
+  __CPROVER_assert(0, "vacuity canary");
+#endif
+}
+
+void h_K_rda_fill_rd2seg(void)
+{
+  struct PDI2* p;
+  g_s = nondet_int(); g_s2 = nondet_int(); g_rd = nondet_int(); g_tab = nondet_int(); g_tab_lo = nondet_int(); g_tab_hi = nondet_int(); g_tab_writes = 0;
+  K_rda_fill_rd2seg(p);
+}
+
+/* the fill loops' postcondition + disjoint intervals (class invariant, instance for the entry and g_s) = the reader contract
+   RD2SEG_READ that the ring-pair kernels assume */
+void h_lemma_rd2seg(void)
+{
+  struct PDI2 pv; struct PDI2* p = &pv; mk_pdi2(p);
+  g_s = nondet_int(); g_s2 = nondet_int(); g_rd = nondet_int(); g_tab = nondet_int(); g_tab_lo = nondet_int(); g_tab_hi = nondet_int(); g_tab_writes = 0;
+  __CPROVER_assume(PDI2_VALID(p) && g_rd > -100000 && g_rd < 100000);
+  K_rda_fill_rd2seg(p);
+  __CPROVER_assume(!(SEG_OK(p, g_tab) && SEG_OK(p, g_s) && g_tab < g_s) || RDMAX(p, g_tab) < RDMIN(p, g_s));
+  if (g_rd >= RDTAB_LO(p) && g_rd <= RDTAB_HI(p))
+    {
+      __CPROVER_assert(g_rd >= g_tab_lo && g_rd <= g_tab_hi, "every ring difference the readers may ask for is inside the table");
+      __CPROVER_assert(g_tab >= p->min_seg && g_tab <= p->max_seg + 1, "entry is a segment number or the impossible value");
+      __CPROVER_assert(!(g_tab <= p->max_seg) || RD_IN(p, g_tab, g_rd), "the entry's interval contains the ring difference");
+      __CPROVER_assert(!(SEG_OK(p, g_s) && RD_IN(p, g_s, g_rd)) || g_tab == g_s, "a ring difference inside a segment's interval is mapped to that segment");
+    }
 #ifdef LEMMA_CANARY
   __CPROVER_assert(0, "vacuity canary");
 #endif
